@@ -62,6 +62,34 @@ func c10Gate(c *Check) {
 			}
 		}
 	}
+	if leave == nil {
+		// the tests may sit in a helper: look through the inlined formulas of the branch conditions
+		for _, b := range stepLeader.Blocks {
+			if !fi.Reach[b.Index] || leave != nil {
+				continue
+			}
+			iff, ok := b.Instrs[len(b.Instrs)-1].(*ssa.If)
+			if !ok {
+				continue
+			}
+			am := map[string]*BAtom{}
+			fi.valueBF(iff.Cond, 0).atoms(am)
+			for _, a := range am {
+				if a.Src == nil || leave != nil {
+					continue
+				}
+				var ch *Sym
+				a.Src.Walk(func(x *Sym) {
+					if x.K == KBuiltin && x.Name == "len" && len(x.Args) == 1 && x.Args[0].K == KField && x.Args[0].Fld == changesF {
+						ch = x
+					}
+				})
+				if ch != nil {
+					leave = bfCmp(ch, "==", constSym(0))
+				}
+			}
+		}
+	}
 	nStores := 0
 	for _, st := range p.StoresTo(pendingF) {
 		if st.Fn != stepLeader || st.Whole {
